@@ -214,9 +214,9 @@ Definition effect (g : glob) (t : thread) (m : mstep) (g' : glob) : Prop :=
     forall j b k, F g' j b k = if live g j && key_eqb k k0 then None else F g j b k
   | MUnregShard p s =>
     frame g g' /\ g_keys g' = g_keys g /\
-    (forall k, g_rib g' k = if purge_sel g true p s k then None else g_rib g k) /\
+    (forall k, g_rib g' k = if purge_sel g PAll p s k then None else g_rib g k) /\
     forall j b k, F g' j b k =
-                  if live g j && purge_sel g true p s k && nonnone (g_rib g k) && inkeys g k then None else F g j b k
+                  if live g j && purge_sel g PAll p s k && nonnone (g_rib g k) && inkeys g k then None else F g j b k
   | MPurgeShard all p s =>
     frame g g' /\ g_keys g' = g_keys g /\
     (forall k, g_rib g' k = if purge_sel g all p s k then None else g_rib g k) /\
@@ -472,7 +472,7 @@ Proof.
     + apply key_eqb_eq in E. subst. right. eauto.
     + left. rewrite <- H7; auto. intro; subst. rewrite key_eqb_refl in E. discriminate.
   - destruct H as [_ [_ [H _]]]. rewrite H in Hk. destruct (key_eqb k k0); [congruence|auto].
-  - destruct H as [_ [_ [H _]]]. rewrite H in Hk. destruct (purge_sel g true p s k); [congruence|auto].
+  - destruct H as [_ [_ [H _]]]. rewrite H in Hk. destruct (purge_sel g PAll p s k); [congruence|auto].
   - destruct H as [_ [_ [H _]]]. rewrite H in Hk. destruct (purge_sel g all p s k); [congruence|auto].
   - destruct H as [_ [_ [H _]]]. rewrite H in Hk. unfold reset_rib in Hk.
     destruct (reset_sel g p s k); auto. destruct (g_rib g k); [left; congruence|congruence].
@@ -751,7 +751,7 @@ Proof.
     eapply A_keep; try exact HA; auto. apply staleK_frame; auto.
   - (* MUnregShard *)
     destruct HE as [[_ [H2 [H3 H4]]] [_ [H6 H7]]]. rewrite H2, H7, HLv. cbn [andb].
-    destruct (purge_sel (s_g s) true p s0 k) eqn:EA; cbn [andb].
+    destruct (purge_sel (s_g s) PAll p s0 k) eqn:EA; cbn [andb].
     + destruct (g_rib (s_g s) k) eqn:ER; cbn [nonnone andb].
       * rewrite inkeys_in by (apply (i_dom s HI); congruence). left. rewrite ribv_none; auto. rewrite H6, EA. auto.
       * eapply A_keep; try exact HA; auto.
